@@ -594,7 +594,9 @@ class _matrix(object):
             new = self.ctx.matrix(self.__rows, self.__cols)
             for i in xrange(self.__rows):
                 for j in xrange(self.__cols):
-                    new[i, j] = other * self[i, j]
+                    # (the entry, a number of this context, owns the
+                    # operation)
+                    new[i, j] = self[i, j] * other
             return new
 
     def __matmul__(self, other):
